@@ -364,6 +364,7 @@ tail = "if r_tail_ is Ok { assert(self.enc() =~= %s_enc(self.0)); }"
 toml.append(open(os.path.join(D, "contracts/ser_records/custom.toml")).read())
 spec.append(open(os.path.join(D, "contracts/ser_records/enum_spec.rs")).read())
 spec.append(open(os.path.join(D, "contracts/ser_records/custom_spec.rs")).read())
+spec.append(open(os.path.join(D, "contracts/ser_records/metadatum_spec.rs")).read())
 own = set(t[0] for t in TABLE) | set(c[0] for c in COLLS) | set(l[0] for l in LEAVES) | set(x[0] for x in SETS) | set(d[0] for d in DISPATCH) | set(d[4] for d in DISPATCH if d[4]) | set(re.findall(r'(?m)^name = "(\w+)"', open(os.path.join(D, "contracts/ser_records/custom.toml")).read()))
 opaque -= own
 opaque -= {"Coin", "Epoch", "Port", "BigNum", "TransactionIndex", "GovernanceActionIndex", "Ed25519KeyHash", "ScriptHash", "SubCoin", "PlutusData", "SlotBigNum", "DeltaCoin", "CborSetType", "DedupIndex", "Rc", "MetadatumItem", "TransactionMetadatumLabel", "Language", "PlutusScripts"}
